@@ -153,7 +153,7 @@ class Run:
             raise Inconclusive("harness build failed:\n" + p.stdout[-4000:])
         return out
 
-    def drive(self, binary, test, env=None, timeout=1800, memlimit_gb=None, ok_rcs=(0,)):
+    def drive(self, binary, test, env=None, timeout=1800, memlimit_gb=None, ok_rcs=(0,), tag=""):
         """Run one driver (a Test function of the harness binary).  Returns stdout text."""
         e = dict(os.environ)
         e.update(GOENV)
@@ -166,7 +166,7 @@ class Run:
         if memlimit_gb:
             cmd = ["bash", "-c", "ulimit -v %d; exec \"$@\"" % (memlimit_gb * 1024 * 1024), "x"] + cmd
         t = time.time()
-        outp = os.path.join(self.work, "drive_%s.out" % test)
+        outp = os.path.join(self.work, "drive_%s%s.out" % (test, tag))
         with open(outp, "w") as fh:
             try:
                 p = subprocess.run(cmd, cwd=self.work, env=e, stdout=fh, stderr=subprocess.STDOUT, timeout=timeout)
@@ -286,6 +286,19 @@ def parse_cases(out, tag="CASE"):
         except ValueError:
             log("unparsable CASE line: " + line[:200])
             raise Inconclusive("unparsable TLC CASE line")
+
+
+def dedupe_histories(recs, complete=lambda e: e.get("status", 1) != 0 or e.get("ev") == "tick"):
+    """TLC's simulator evaluates invariants on every successor of the last state, so a behaviour is printed once per
+    successor: keep one history per distinct sequence of completed steps."""
+    seen = set()
+    for r in recs:
+        h = [e for e in r["hist"] if complete(e)]
+        k = json.dumps(h, sort_keys=True)
+        if k in seen or not h:
+            continue
+        seen.add(k)
+        yield {"hist": h}
 
 
 def write_cases(recs, path):
